@@ -483,7 +483,7 @@ class RecipeGen:
         opts = [("pop", 3), ("assert", 2)]
         if sc.vars:
             opts.append(("store", 5))
-            opts.append(("pub", 2))
+            opts.append(("pub", 9 if self.f.get("pub_boost") else 2))
         if self.gvars:
             opts.append(("gvstore", 3))
             opts.append(("gvpub", 2))
@@ -1108,7 +1108,8 @@ def _profile_knobs(profile, feats: dict) -> dict:
         feats.update({"globals": True, "reserved_slots": True, "dynvar": True, "multivalue": True, "cond": True, "max_nest": 2, "dup_pub_p": 0.25})
         k.update({"ss_on_p": 0.7, "shared_S_p": 0.8, "testctx_p": 0.7})
     elif profile == "identity":
-        k.update({"natural_p": 1.0, "ss_on_p": 0.6, "noise_p": 0.6})
+        feats.update({"pub_boost": True, "multivalue": True, "zoo": True, "max_main": 9})
+        k.update({"natural_p": 1.0, "ss_on_p": 0.8, "noise_p": 0.6, "drop_p": 1.0})
     elif profile == "decl-churn":
         feats.update({"abi": True})
         k.update({"decl_churn": True, "low_versions": False})
@@ -1173,6 +1174,8 @@ def gen_plan(seed: int, cfg: dict) -> dict:
     rr = sub_rng(seed, "recipes")
     feats = gen_features(rr)
     profile = r.choice(PROFILES) if r.random() < 0.3 and not os.environ.get("SIM_NO_PROFILES") else None
+    if os.environ.get("SIM_FORCE_PROFILE"):
+        profile = os.environ["SIM_FORCE_PROFILE"]  # experiments only
     KNOBS.clear()
     KNOBS.update(_profile_knobs(profile, feats))
     enabled = [k for k in cfg.get("faults", []) if r.random() < 0.7]
@@ -1322,10 +1325,29 @@ def gen_plan(seed: int, cfg: dict) -> dict:
     # addresses - and with natural identities their id() values - are reused by later objects
     natural_ids = r.random() < KNOBS["natural_p"]
     noise_pids = [p for p in order if not programs[p]["target"]]
-    if noise_pids and r.random() < (0.6 if natural_ids else 0.2):
-        for pid in r.sample(noise_pids, min(len(noise_pids), r.randrange(1, 3))):
+    if noise_pids and r.random() < KNOBS.get("drop_p", 0.6 if natural_ids else 0.2):
+        for pid in r.sample(noise_pids, min(len(noise_pids), r.randrange(1, 3) if "drop_p" not in KNOBS else len(noise_pids))):
             last = max(i for i, o in enumerate(merged) if o.get("p") == pid)
-            merged.insert(r.randrange(last + 1, len(merged) + 1), {"op": "drop", "p": pid})
+            at = r.randrange(last + 1, len(merged) + 1)
+            merged.insert(at, {"op": "drop", "p": pid})
+            nspec = programs[pid]
+            if nspec["kind"] == "expr" and not any(sb.get("fault") for sb in nspec["subs"]) and r.random() < (0.7 if natural_ids else 0.2):
+                # "edit and re-run": the dropped program, slightly edited (some statements that only
+                # USE variables removed), is built again from scratch - new objects, mostly at the
+                # addresses of the dead ones - and compiled; it is a target with its own reference
+                tspec = json.loads(json.dumps(nspec))
+                tpid = new_pid("T")
+                tspec["id"], tspec["target"] = tpid, True
+                removable = [i for i, st in enumerate(tspec["steps"]) if st[0] == "stmt" and st[1][0] in ("pop", "assert", "log", "gput", "comment", "store", "pub")]
+                for i in sorted(r.sample(removable, min(len(removable), r.randrange(1, 4))), reverse=True):
+                    del tspec["steps"][i]
+                programs[tpid] = tspec
+                order.append(tpid)
+                tops: list[dict] = [{"op": "build", "p": tpid} for _ in tspec["steps"]]
+                for _ in range(r.choice([1, 2])):
+                    tops.append(_compile_op(r, tspec, enabled, sm_run, [o for o in tops if o["op"] == "compile"]))
+                merged[at + 1 : at + 1] = tops
+                live_targets.append(tpid)
 
     # churn: bulk allocation by "other code" in the process (absolute counter values, addresses)
     if r.random() < 0.35:
